@@ -39,7 +39,7 @@ Proof.
 Qed.
 
 (* the validation loop of Attribute::decode accepts exactly well-formed segment lists *)
-Lemma aspath_valid_wf : forall fuel l, aspath_valid fuel true l = true -> bytes_ok l -> wf_as_path l.
+Lemma aspath_valid_wf : forall fuel l, aspath_valid fuel false l = true -> bytes_ok l -> wf_as_path l.
 Proof.
   induction fuel as [|f IH]; intros l Hv Hok.
   - destruct l; [constructor|discriminate].
@@ -50,24 +50,10 @@ Proof.
     apply Nat.leb_le in Hle.
     rewrite <- (firstn_skipn (4 * N.to_nat n) r). rewrite <- (firstn_skipn (4 * N.to_nat n) r) in H2.
     apply bytes_ok_app_inv in H2. destruct H2 as [_ Hsk].
-    apply wfp_seg; [lia|exact Hn|apply firstn_length_le; exact Hle|apply IH; assumption].
+    apply wfp_seg; [lia|lia|apply firstn_length_le; exact Hle|apply IH; assumption].
 Qed.
 
-Lemma aspath_valid_wf4 : forall fuel l, aspath_valid fuel false l = true -> bytes_ok l -> wf_as4_path l.
-Proof.
-  induction fuel as [|f IH]; intros l Hv Hok.
-  - destruct l; [constructor|discriminate].
-  - destruct l as [|t [|n r]]; [constructor|discriminate|].
-    cbn [aspath_valid] in Hv.
-    apply andb_prop in Hv. destruct Hv as [Hv Hrec]. apply andb_prop in Hv. destruct Hv as [Hv Hle].
-    inversion Hok as [|? ? Ht H1]; subst. inversion H1 as [|? ? Hn H2]; subst.
-    apply Nat.leb_le in Hle.
-    rewrite <- (firstn_skipn (4 * N.to_nat n) r). rewrite <- (firstn_skipn (4 * N.to_nat n) r) in H2.
-    apply bytes_ok_app_inv in H2. destruct H2 as [_ Hsk].
-    apply wf4_seg; [lia|lia|apply firstn_length_le; exact Hle|apply IH; assumption].
-Qed.
-
-Lemma wf_valid : forall b, wf_as_path b -> forall fuel, (length b < fuel)%nat -> aspath_valid fuel true b = true.
+Lemma wf_valid : forall b, wf_as_path b -> forall fuel, (length b < fuel)%nat -> aspath_valid fuel false b = true.
 Proof.
   intros b Hwf. induction Hwf as [|t n body rest Ht Hn Hlen Hwf IH]; intros fuel Hfuel.
   - destruct fuel; reflexivity.
@@ -77,17 +63,7 @@ Proof.
     + cbn [length] in Hfuel. rewrite app_length in Hfuel. lia.
 Qed.
 
-Lemma wf4_valid : forall b, wf_as4_path b -> forall fuel, (length b < fuel)%nat -> aspath_valid fuel false b = true.
-Proof.
-  intros b Hwf. induction Hwf as [|t n body rest Ht Hn Hlen Hwf IH]; intros fuel Hfuel.
-  - destruct fuel; reflexivity.
-  - destruct fuel as [|f]; [lia|]. cbn [aspath_valid].
-    rewrite <- Hlen, skipn_exact. rewrite IH.
-    + rewrite app_length. lia.
-    + cbn [length] in Hfuel. rewrite app_length in Hfuel. lia.
-Qed.
-
-Lemma wf4_even : forall b, wf_as4_path b -> Nat.modulo (length b) 2 = 0%nat.
+Lemma wf_even : forall b, wf_as_path b -> Nat.modulo (length b) 2 = 0%nat.
 Proof.
   intros b Hwf. induction Hwf as [|t n body rest Ht Hn Hlen Hwf IH]; [reflexivity|].
   cbn [length]. rewrite app_length, Hlen.
@@ -95,7 +71,7 @@ Proof.
   rewrite Nat.mod_add by lia. exact IH.
 Qed.
 
-Lemma wf4_len6 : forall b, wf_as4_path b -> b <> [] -> (6 <= length b)%nat.
+Lemma wf_len6 : forall b, wf_as_path b -> b <> [] -> (6 <= length b)%nat.
 Proof.
   intros b Hwf Hne. destruct Hwf as [|t n body rest Ht Hn Hlen Hwf]; [contradiction|].
   cbn [length]. rewrite app_length, Hlen. lia.
@@ -109,10 +85,7 @@ Proof.
   - exists acc. destruct fuel; reflexivity.
   - destruct fuel as [|f]; [lia|]. cbn [aspl]. rewrite <- Hlen, skipn_exact.
     assert (Hf : (length rest < f)%nat) by (cbn [length] in Hfuel; rewrite app_length in Hfuel; lia).
-    destruct (N.eqb_spec t 1); [apply IH; exact Hf|].
-    destruct (N.eqb_spec t 2); [apply IH; exact Hf|].
-    destruct (N.eqb_spec t 3); [apply IH; exact Hf|].
-    destruct (N.eqb_spec t 4); [apply IH; exact Hf|]. lia.
+    destruct (t =? 1); [apply IH; exact Hf|]. destruct (t =? 2); apply IH; exact Hf.
 Qed.
 
 (* attr_from_api's emitter produces well-formed segments from checked input *)
@@ -122,12 +95,13 @@ Proof.
   induction segs as [|[t nums] segs IH]; intros H; cbn [emit_segs]; [split; constructor|].
   cbn [forallb] in H. apply andb_prop in H. destruct H as [Hs Hr]. destruct (IH Hr) as [Hwf Hok].
   unfold seg_ok in Hs. cbn [fst snd] in Hs.
-  apply andb_prop in Hs. destruct Hs as [Hs Hl]. apply andb_prop in Hs. destruct Hs as [Ht1 Ht4].
-  apply Nat.leb_le in Hl. apply Z.leb_le in Ht1. apply Z.leb_le in Ht4.
+  apply andb_prop in Hs. destruct Hs as [Hs Hl0]. apply andb_prop in Hs. destruct Hs as [Hs Hl].
+  apply andb_prop in Hs. destruct Hs as [Ht1 Ht4].
+  apply Nat.leb_le in Hl. apply Nat.leb_le in Hl0. apply Z.leb_le in Ht1. apply Z.leb_le in Ht4.
   split.
   - apply wfp_seg.
     + unfold u8_of_Z. lia.
-    + apply N.mod_lt. lia.
+    + rewrite N.mod_small by lia. lia.
     + rewrite length_flat_be32. rewrite N.mod_small by lia. lia.
     + exact Hwf.
   - constructor; [unfold u8_of_Z; lia|]. constructor; [lia|].
